@@ -4,6 +4,7 @@ import CJ.Lemmas.RegistryX
 import CJ.Gen.RegistryConsts
 import CJ.Gen.SweepTicker
 import CJ.Gen.ExpiryShape
+import CJ.Gen.ConnActivation
 /-!
 # C08 — registrations expire on schedule: never early, never kept past their lifetime
 
@@ -590,17 +591,30 @@ theorem retracked_starts_unvalidated (c : Cfg) (x : XSt) (k : Key) (tr now : Nat
   have : (track c x.b.st k tr now).1.decoys[k]? = some r := hr1
   rw [hd] at this; cases this; cases hv
 
-/-- the second half of an interrupted sweep is the removal loop over the list collected in the first
-half, run on the state it finds -/
-theorem sweepEnd_state (c : Cfg) (x : XSt) (now : Nat) (ks : List Key) (h : x.pending = some (now, ks)) :
-    (xstep c x .sweepEnd).1.b.st = removeAllS c now ks x.b.st := by
-  have e : (xstep c x .sweepEnd).1.b = (bremoveAll c now ks x.b).1 := by
+/-- the last piece of an interrupted sweep is the removal loop over the collected indices that have not
+been handled yet, run on the state it finds -/
+theorem sweepEnd_state (c : Cfg) (x : XSt) (p : Pending) (h : x.pending = some p) :
+    (xstep c x .sweepEnd).1.b.st = removeAllS c p.now p.todo x.b.st := by
+  have e : (xstep c x .sweepEnd).1.b = (bremoveAll c p.now p.todo x.b).1 := by
     simp only [xstep, h]
   rw [e]
-  have h1 := (bremoveAll_fst c now ks x.b 0).1
+  have h1 := (bremoveAll_fst c p.now p.todo x.b 0).1
   simp only [bremoveAll] at h1 ⊢
   rw [h1]
-  exact removeAll_fst c now ks x.b.st 0
+  exact removeAll_fst c p.now p.todo x.b.st 0
+
+/-- a piece in the middle handles the named indices that are still to do, in the order given — which
+order Go's map iteration produced does not matter for what is tracked afterwards (`split_sweep_exact`
+speaks about membership only) -/
+theorem sweepSome_state (c : Cfg) (x : XSt) (p : Pending) (ks : List Key) (h : x.pending = some p) :
+    (xstep c x (.sweepSome ks)).1.b.st = removeAllS c p.now (ks.filter p.todo.contains) x.b.st := by
+  have e : (xstep c x (.sweepSome ks)).1.b = (bremoveAll c p.now (ks.filter p.todo.contains) x.b).1 := by
+    simp only [xstep, h]
+  rw [e]
+  have h1 := (bremoveAll_fst c p.now (ks.filter p.todo.contains) x.b 0).1
+  simp only [bremoveAll] at h1 ⊢
+  rw [h1]
+  exact removeAll_fst c p.now _ x.b.st 0
 
 /-- a burst is the list of its base operations -/
 theorem bulk_is_history (c : Cfg) (x : XSt) (kind : Nat) (p pre : String) (start n tr now : Nat) :
@@ -611,7 +625,6 @@ theorem bulk_is_history (c : Cfg) (x : XSt) (kind : Nat) (p pre : String) (start
 example : (xstep cfg0 xinit (.trackObj ("10.0.0.1", "a") 0 5 true)).1.b.st.decoys[("10.0.0.1", "a")]? =
     some ⟨0, false, 1⟩ :=
   (retracked_starts_unvalidated cfg0 xinit _ 0 5 true (by decide) (by simp [xinit])).1
-example : (xstep cfg0 xinit (.sweepBegin 700)).1.pending = some (700, collect cfg0 700 xinit.b.st) := rfl
 example : tracked (removeAllS cfg0 700 (collect cfg0 700 (run cfg0 hist0))
     (markActive cfg0 (run cfg0 hist0) ("10.0.0.1", "idMin") 0).1) ("10.0.0.1", "idMin") :=
   interrupted_by_connection_survives cfg0 _ ⟨hist0, rfl⟩ 700 _ 0 ⟨0, false⟩ (by decide)
@@ -663,6 +676,47 @@ theorem registry_maps_written_by_track_and_remove_only :
       [("decoys", "removeRegistration", "delete inner"), ("decoys", "removeRegistration", "delete"),
        ("decoys", "track", "assign"), ("decoys", "track", "assign"),
        ("decoysTimeouts", "removeRegistration", "delete"), ("decoysTimeouts", "track", "assign")] := by
+  decide +kernel
+
+/-- every acquisition of the registry lock waits (`Lock` / `RLock`): none is a `Try*` that could refuse and
+let the caller go on without having done its work — in particular the sweep's collection takes the read
+lock, its removal and a connection's `markActive` the write lock.  (The harness puts stand-ins inside the
+lock while these arrive; the model's operations are atomic.) -/
+theorem registry_lock_never_refuses :
+    (CJ.Gen.registryLockAcquisitions.all fun a =>
+      a.2 == "Lock" || a.2 == "RLock" || a.2 == "Unlock" || a.2 == "RUnlock") = true ∧
+    CJ.Gen.registryLockAcquisitions.filter (fun a =>
+      a.1 == "getExpiredRegistrations" || a.1 == "removeRegistration" || a.1 == "markActive") =
+      [("getExpiredRegistrations", "RLock"), ("getExpiredRegistrations", "RUnlock"), ("markActive", "Lock"),
+       ("markActive", "Unlock"), ("removeRegistration", "Lock"), ("removeRegistration", "Unlock")] := by
+  decide +kernel
+
+/-! ### when the station says "this registration has carried a connection" (go/ast facts over
+`handleNewTCPConn`, regenerated on every run)
+
+`Proxy` blocks for the whole session.  The histories of the harness contain `markActive` at the moment a
+connection is matched; the facts below tie that to the handler: MarkActive is called as soon as a
+transport has identified the registration, before the session — so a registration whose first session
+is still open is a used one for every sweep in between. -/
+
+def connKey (e : String) : Bool :=
+  e.startsWith "WrapConnection" || e.startsWith "MarkActive" || e.startsWith "Proxy" || e.startsWith "break readLoop"
+
+/-- in source order: the transport's WrapConnection, then MarkActive, then the one `break readLoop`, all
+inside the two loops; then Proxy, outside them — each exactly once; and between MarkActive and Proxy
+nothing returns, blocks or branches elsewhere -/
+theorem connection_marked_before_the_session :
+    CJ.Gen.connHandlerEvents.filter connKey = ["WrapConnection@2", "MarkActive@2", "break readLoop@2", "Proxy@0"] ∧
+    (CJ.Gen.connHandlerEvents.dropWhile (· != "MarkActive@2")) = ["MarkActive@2", "break readLoop@2", "Proxy@0"] := by
+  decide +kernel
+
+/-- after the last early exit of the block that identifies the registration nothing blocks and nothing can
+leave before MarkActive (clearing the deadline and two log lines), and the block ends by leaving the read
+loop; the first statement after the loop is Proxy, and MarkActive is not called after it -/
+theorem activation_is_unconditional_and_first :
+    CJ.Gen.connActivationTail = ["=", "=clientConn.SetDeadline()", "if", "logger.SetPrefix()", "logger.Debugf()",
+      "regManager.MarkActive()", "cm.checkToFound()", "break readLoop"] ∧
+    CJ.Gen.connAfterLoop = ["cj.Proxy()", "cj.Stat().CloseConn()"] := by
   decide +kernel
 
 end CJ.Props.C08
